@@ -1,6 +1,370 @@
-//! Job kinds of this property (see lib/prop_*.py). Returns None for kinds it does not know.
-use serde_json::Value;
+//! Job kinds of C13 (cache transparency) and C14 (thread safety); see lib/prop_c13.py and
+//! lib/prop_c14.py. Returns None for kinds it does not know.
+//!
+//! `cache_history`: a list of build steps executed in THIS process in order (the scanner cache is
+//! process-global, so the driver starts one process per history). Every step builds the same
+//! modes through the cache and twice without it and records everything observable.
+//!
+//! `thread_stress`: N threads started together behind a barrier, each performing a list of
+//! actions (builds through the shared cache, scans with shared and private scanners) under a
+//! wall-clock watchdog; with `"sequential": true` the same actions are executed one thread after
+//! the other on the calling thread (the reference run, in a fresh process).
+use std::panic::{catch_unwind, AssertUnwindSafe};
+use std::sync::atomic::{AtomicUsize, Ordering};
+use std::sync::{mpsc, Arc, Barrier};
+use std::time::{Duration, Instant};
 
-pub fn run(_kind: &str, _job: &Value) -> Option<Value> {
-    None
+use scnr::{Scanner, ScannerMode, ScannerModeSwitcher};
+use serde_json::{json, Map, Value};
+
+/// C14, first half: if `Scanner` loses `Send` or `Sync` the harness does not compile any more and
+/// the driver reports the compiler error.
+fn assert_send_sync<T: Send + Sync>() {}
+#[allow(dead_code)]
+const SCANNER_IS_SEND_AND_SYNC: fn() = || assert_send_sync::<Scanner>();
+
+pub fn run(kind: &str, job: &Value) -> Option<Value> {
+    match kind {
+        "cache_history" => Some(cache_history(job)),
+        "thread_stress" => Some(thread_stress(job)),
+        _ => None,
+    }
+}
+
+// ---------------------------------------------------------------------------------------------
+// shared helpers
+
+/// Sorts the edge list of every state (the order inside a state is hash-set iteration order and
+/// may differ between two compilations of the same modes).
+fn canon_dfa(d: &mut Value) {
+    if let Some(states) = d.get_mut("states").and_then(|s| s.as_array_mut()) {
+        for s in states {
+            if let Some(es) = s.as_array_mut() {
+                es.sort_by_key(|e| (e[0].as_u64().unwrap_or(0), e[1].as_u64().unwrap_or(0)));
+            }
+        }
+    }
+    if let Some(las) = d.get_mut("las").and_then(|l| l.as_array_mut()) {
+        for l in las {
+            if let Some(inner) = l.get_mut(2) {
+                canon_dfa(inner);
+            }
+        }
+    }
+}
+
+fn canon_dump(scanner: &Scanner) -> Value {
+    let mut v = crate::dump_to_json(&scnr::verif::dump(scanner));
+    if let Some(modes) = v.get_mut("modes").and_then(|m| m.as_array_mut()) {
+        for m in modes {
+            if let Some(d) = m.get_mut("dfa") {
+                canon_dfa(d);
+            }
+        }
+    }
+    v
+}
+
+fn modes_of(v: &Value) -> Result<Vec<ScannerMode>, String> {
+    catch_unwind(|| crate::modes_from_json(v)).map_err(crate::panic_message)
+}
+
+fn next_ops(input: &str) -> Vec<Value> {
+    (0..input.chars().count() + 2).map(|_| json!(["next"])).collect()
+}
+
+fn streams(scanner: &Scanner, inputs: &[String]) -> Value {
+    Value::Array(
+        inputs
+            .iter()
+            .map(|inp| json!(crate::run_ops(scanner, inp, &next_ops(inp), false)))
+            .collect(),
+    )
+}
+
+fn strings_of(v: Option<&Value>) -> Vec<String> {
+    v.and_then(|i| i.as_array())
+        .map(|a| a.iter().map(|s| s.as_str().unwrap_or("").to_string()).collect())
+        .unwrap_or_default()
+}
+
+/// Everything observable about one build: outcome class, message, and for a scanner the
+/// canonical dump (automata, mode names, transitions, classes, current mode) and token streams.
+fn observe(built: (Option<Scanner>, &'static str, String), inputs: &[String]) -> (Option<Scanner>, Value) {
+    let (scanner, class, msg) = built;
+    let mut o = Map::new();
+    o.insert("class".into(), json!(class));
+    if !msg.is_empty() {
+        o.insert("msg".into(), json!(msg));
+    }
+    if let Some(s) = &scanner {
+        match catch_unwind(AssertUnwindSafe(|| (s.current_mode(), canon_dump(s), streams(s, inputs)))) {
+            Ok((mode, dump, st)) => {
+                o.insert("current_mode".into(), json!(mode));
+                o.insert("dump".into(), dump);
+                o.insert("streams".into(), st);
+            }
+            Err(p) => {
+                o.insert("observe_panic".into(), json!(crate::panic_message(p)));
+            }
+        }
+    }
+    (scanner, Value::Object(o))
+}
+
+// ---------------------------------------------------------------------------------------------
+// C13: one history of builds in this process
+
+fn cache_history(job: &Value) -> Value {
+    let steps = job["steps"].as_array().cloned().unwrap_or_default();
+    let mut out = Vec::new();
+    // scanners handed out by the cache stay alive (and possibly poked) until the end
+    let mut kept: Vec<(usize, Scanner, Vec<String>)> = Vec::new();
+    for (i, step) in steps.iter().enumerate() {
+        let mut r = Map::new();
+        let inputs = strings_of(step.get("inputs"));
+        let modes = match modes_of(&step["modes"]) {
+            Ok(m) => m,
+            Err(p) => {
+                r.insert("modes_panic".into(), json!(p));
+                out.push(Value::Object(r));
+                continue;
+            }
+        };
+        // the order of the cached and the first uncached build alternates with the step flag
+        let uncached_first = step.get("uncached_first").and_then(|b| b.as_bool()).unwrap_or(false);
+        let (cached, u1);
+        if uncached_first {
+            u1 = observe(crate::build(&modes, false), &inputs);
+            cached = observe(crate::build(&modes, true), &inputs);
+        } else {
+            cached = observe(crate::build(&modes, true), &inputs);
+            u1 = observe(crate::build(&modes, false), &inputs);
+        }
+        let u2 = observe(crate::build(&modes, false), &inputs);
+        r.insert("cached".into(), cached.1);
+        r.insert("uncached".into(), u1.1);
+        r.insert("uncached2".into(), u2.1);
+        if let Some(mut s) = cached.0 {
+            // use of a handed-out scanner must not leak into the cache: switch its mode, scan
+            if let Some(p) = step.get("poke") {
+                let poked = catch_unwind(AssertUnwindSafe(|| {
+                    if let Some(m) = p.get("set_mode").and_then(|m| m.as_u64()) {
+                        s.set_mode(m as usize);
+                    }
+                    if let Some(inp) = p.get("scan").and_then(|x| x.as_str()) {
+                        let mut it = s.find_iter(inp);
+                        if let Some(m) = p.get("iter_mode").and_then(|m| m.as_u64()) {
+                            it.set_mode(m as usize);
+                        }
+                        let _ = it.by_ref().count();
+                    }
+                    s.current_mode()
+                }));
+                match poked {
+                    Ok(m) => r.insert("poked_mode".into(), json!(m)),
+                    Err(p) => r.insert("poke_panic".into(), json!(crate::panic_message(p))),
+                };
+            }
+            kept.push((i, s, inputs));
+        }
+        out.push(Value::Object(r));
+    }
+    // earlier scanners still behave as when they were handed out (find_iter starts in mode 0)
+    let fin: Vec<Value> = kept
+        .iter()
+        .map(|(i, s, inputs)| json!({"step": i, "streams": streams(s, inputs)}))
+        .collect();
+    json!({"steps": out, "final": fin})
+}
+
+// ---------------------------------------------------------------------------------------------
+// C14: threads
+
+struct Stress {
+    configs: Vec<Value>,
+    inputs: Vec<String>,
+    shared: Vec<Arc<Scanner>>,
+    ticket: AtomicUsize,
+}
+
+fn ops_of(v: Option<&Value>, input: &str) -> Vec<Value> {
+    match v.and_then(|o| o.as_array()) {
+        Some(a) if !a.is_empty() => a.clone(),
+        _ => next_ops(input),
+    }
+}
+
+/// One action of one thread. `private` is the thread's own scanner.
+fn act(st: &Stress, action: &Value, private: &mut Option<Scanner>) -> Value {
+    let name = action[0].as_str().unwrap_or("");
+    let idx = |k: usize| action.get(k).and_then(|v| v.as_u64()).unwrap_or(0) as usize;
+    let r = catch_unwind(AssertUnwindSafe(|| match name {
+        "build" | "build_scan" | "priv_build" => {
+            let modes = match modes_of(&st.configs[idx(1)]) {
+                Ok(m) => m,
+                Err(p) => return json!({"a": name, "modes_panic": p}),
+            };
+            let inputs: Vec<String> = if name == "build_scan" { vec![st.inputs[idx(2)].clone()] } else { vec![] };
+            let (s, mut o) = observe(crate::build(&modes, true), &[]);
+            // the ticket orders the builds of all threads (an interleaving of the build steps)
+            let t = st.ticket.fetch_add(1, Ordering::SeqCst);
+            let m = o.as_object_mut().unwrap();
+            m.insert("a".into(), json!(name));
+            m.insert("cfg".into(), json!(idx(1)));
+            m.insert("ticket".into(), json!(t));
+            if let Some(s) = s {
+                if name == "build_scan" {
+                    let ops = ops_of(action.get(3), &inputs[0]);
+                    m.insert("outs".into(), json!(crate::run_ops(&s, &inputs[0], &ops, false)));
+                }
+                if name == "priv_build" {
+                    *private = Some(s);
+                }
+            }
+            o
+        }
+        "scan_shared" => {
+            let s = &st.shared[idx(1)];
+            let inp = &st.inputs[idx(2)];
+            let ops = ops_of(action.get(3), inp);
+            json!({"a": name, "outs": crate::run_ops(s, inp, &ops, false), "scanner_mode": s.current_mode()})
+        }
+        "priv_scan" => match private {
+            Some(s) => {
+                let inp = &st.inputs[idx(1)];
+                let ops = ops_of(action.get(2), inp);
+                json!({"a": name, "outs": crate::run_ops(s, inp, &ops, false), "scanner_mode": s.current_mode()})
+            }
+            None => json!({"a": name, "none": true}),
+        },
+        "priv_set_mode" => match private {
+            Some(s) => {
+                s.set_mode(idx(1));
+                json!({"a": name, "scanner_mode": s.current_mode()})
+            }
+            None => json!({"a": name, "none": true}),
+        },
+        other => json!({"a": other, "unknown_action": true}),
+    }));
+    match r {
+        Ok(v) => v,
+        Err(p) => json!({"a": name, "panic": crate::panic_message(p)}),
+    }
+}
+
+fn run_thread(st: &Stress, actions: &[Value], mut private: Option<Scanner>) -> Vec<Value> {
+    actions.iter().map(|a| act(st, a, &mut private)).collect()
+}
+
+/// Runs the whole job (set-up builds included) on a helper thread so that a call that never
+/// returns is reported instead of hanging the harness.
+fn thread_stress(job: &Value) -> Value {
+    let watchdog = Duration::from_millis(job.get("watchdog_ms").and_then(|w| w.as_u64()).unwrap_or(60_000));
+    let job = job.clone();
+    let (tx, rx) = mpsc::channel::<Value>();
+    let spawned = std::thread::Builder::new().name("stress-main".into()).spawn(move || {
+        let r = catch_unwind(AssertUnwindSafe(|| stress_inner(&job)));
+        let _ = tx.send(r.unwrap_or_else(|p| json!({"harness_panic": crate::panic_message(p)})));
+    });
+    if let Err(e) = spawned {
+        return json!({"setup_error": format!("cannot spawn: {}", e)});
+    }
+    match rx.recv_timeout(watchdog + Duration::from_secs(5)) {
+        Ok(v) => v,
+        Err(_) => json!({"threads": [], "timeout": true, "finished": 0,
+                         "phase": "set-up builds or sequential reference did not return"}),
+    }
+}
+
+fn stress_inner(job: &Value) -> Value {
+    let configs: Vec<Value> = job["configs"].as_array().cloned().unwrap_or_default();
+    let inputs = strings_of(job.get("inputs"));
+    let threads: Vec<Vec<Value>> = job["threads"]
+        .as_array()
+        .map(|t| t.iter().map(|a| a.as_array().cloned().unwrap_or_default()).collect())
+        .unwrap_or_default();
+    let sequential = job.get("sequential").and_then(|b| b.as_bool()).unwrap_or(false);
+    let watchdog = Duration::from_millis(job.get("watchdog_ms").and_then(|w| w.as_u64()).unwrap_or(60_000));
+    // scanners shared by all threads, built by this thread before the start
+    let mut shared = Vec::new();
+    for sh in job["shared"].as_array().cloned().unwrap_or_default() {
+        let ci = sh["config"].as_u64().unwrap_or(0) as usize;
+        let cached = sh.get("cached").and_then(|b| b.as_bool()).unwrap_or(true);
+        let modes = match modes_of(&configs[ci]) {
+            Ok(m) => m,
+            Err(p) => return json!({"setup_error": format!("modes of shared config {}: {}", ci, p)}),
+        };
+        match crate::build(&modes, cached) {
+            (Some(mut s), _, _) => {
+                if let Some(m) = sh.get("set_mode").and_then(|m| m.as_u64()) {
+                    s.set_mode(m as usize);
+                }
+                shared.push(Arc::new(s));
+            }
+            (None, class, msg) => return json!({"setup_error": format!("shared config {} does not build: {} {}", ci, class, msg)}),
+        }
+    }
+    // scanners built here and MOVED into their thread (Send)
+    let mut moved: Vec<Option<Scanner>> = Vec::new();
+    let moved_cfg = job.get("moved").and_then(|m| m.as_array()).cloned().unwrap_or_default();
+    for t in 0..threads.len() {
+        let s = match moved_cfg.get(t).and_then(|c| c.as_u64()) {
+            Some(ci) => match modes_of(&configs[ci as usize]) {
+                Ok(modes) => crate::build(&modes, true).0,
+                Err(_) => None,
+            },
+            None => None,
+        };
+        moved.push(s);
+    }
+    let st = Arc::new(Stress { configs, inputs, shared, ticket: AtomicUsize::new(0) });
+    let n = threads.len();
+    let t0 = Instant::now();
+    let mut results: Vec<Value> = vec![Value::Null; n];
+    if sequential {
+        for (t, (actions, private)) in threads.iter().zip(moved).enumerate() {
+            results[t] = Value::Array(run_thread(&st, actions, private));
+        }
+        return json!({"threads": results, "timeout": false, "elapsed_ms": t0.elapsed().as_millis() as u64});
+    }
+    let barrier = Arc::new(Barrier::new(n));
+    let (tx, rx) = mpsc::channel::<(usize, Result<Vec<Value>, String>)>();
+    for (t, (actions, private)) in threads.into_iter().zip(moved).enumerate() {
+        let st = st.clone();
+        let barrier = barrier.clone();
+        let tx = tx.clone();
+        let spawned = std::thread::Builder::new().name(format!("stress{}", t)).spawn(move || {
+            barrier.wait();
+            let r = catch_unwind(AssertUnwindSafe(|| run_thread(&st, &actions, private)));
+            let _ = tx.send((t, r.map_err(crate::panic_message)));
+        });
+        if let Err(e) = spawned {
+            return json!({"setup_error": format!("cannot spawn thread {}: {}", t, e)});
+        }
+    }
+    drop(tx);
+    let deadline = t0 + watchdog;
+    let mut done = 0;
+    let mut timeout = false;
+    while done < n {
+        let left = deadline.saturating_duration_since(Instant::now());
+        match rx.recv_timeout(left) {
+            Ok((t, Ok(r))) => {
+                results[t] = Value::Array(r);
+                done += 1;
+            }
+            Ok((t, Err(p))) => {
+                results[t] = json!({"thread_panic": p});
+                done += 1;
+            }
+            Err(mpsc::RecvTimeoutError::Timeout) => {
+                // deadlock or livelock: report; the stuck threads die with the process
+                timeout = true;
+                break;
+            }
+            Err(mpsc::RecvTimeoutError::Disconnected) => break,
+        }
+    }
+    json!({"threads": results, "timeout": timeout, "finished": done, "elapsed_ms": t0.elapsed().as_millis() as u64})
 }
